@@ -97,6 +97,20 @@ pub(crate) fn execute_with_stream<'i>(
     observer.update_completeness(exec_ctx);
     #[cfg(aquavm_verif)]
     crate::verif_hooks::emit(crate::verif_hooks::Event::FoldEnd { fold_id });
+    #[cfg(aquavm_verif)]
+    if let Some((prev_entries, prev_states, current_entries, current_states)) =
+        trace_ctx.verif_unclaimed_fold_lore(fold_id)
+    {
+        if prev_entries + current_entries > 0 {
+            crate::verif_hooks::emit(crate::verif_hooks::Event::FoldUnclaimedLore {
+                fold_id,
+                prev_entries,
+                prev_states,
+                current_entries,
+                current_states,
+            });
+        }
+    }
     trace_to_exec_err!(trace_ctx.meet_fold_end(fold_id), fold_to_string)?;
     Ok(())
 }
